@@ -148,8 +148,22 @@ func VerifC18_Variance() {
 	m.average.seenSamples, m.average.value = seenA, avg
 	m.variance.seenSamples, m.variance.value = seenV, vr
 	x := verifPos("sample")
+	// reference fold (twin averages in the same state): the variance estimate is the moving average
+	// of the squared deviation from the mean BEFORE the sample, taken for every sample but the very
+	// first one; the mean is the moving average of the samples
+	refAvg, _ := NewSimpleExponentialMovingAverage(alpha)
+	refVar, _ := NewSimpleExponentialMovingAverage(alpha)
+	refAvg.seenSamples, refAvg.value = seenA, avg
+	refVar.seenSamples, refVar.value = seenV, vr
+	if seenA > 0 {
+		refVar.Add(math.Pow(x-avg, 2))
+	}
+	refAvg.Add(x)
 	m.Add(x)
 	verif.Assert("variance-nonneg", m.Get() >= 0)
+	verif.Assert("variance-is-moving-average-of-squared-deviation", m.variance.value == refVar.value && m.variance.seenSamples == refVar.seenSamples)
+	verif.Assert("variance-mean-is-moving-average-of-samples", m.average.value == refAvg.value && m.average.seenSamples == refAvg.seenSamples)
+	verif.Assert("variance-get-reports-the-estimate", m.Get() == refVar.value)
 	m.Reset()
 	f, _ := NewSimpleMovingVariance(alpha, alpha)
 	verif.Assert("variance-reset-fresh", m.stdev == f.stdev && m.normalized == f.normalized &&
